@@ -63,6 +63,10 @@ enum Call {
     Format(usize, i64),
     /// DateTime::now in one of two fixed zones whose local dates differ at the simulated reading
     Now(usize),
+    /// lookup through the owned `TimeZone::find_local_time_type` of one of the rule-only zones
+    OwnedLookup(usize, i64),
+    /// search in one of the rule-only zones
+    RuleFind(usize, (i32, u8, u8, u8, u8, u8), usize),
     UtcNow,
 }
 
@@ -77,6 +81,8 @@ struct Zones {
     far_west: TimeZone,
     /// a zone whose answers after its last transition come from an alternate (DST) rule
     rule_zone: TimeZone,
+    /// rule-only zones with different rules (EU-like, US-like, southern): same years, different bounds
+    rules: Vec<TimeZone>,
 }
 
 /// The simulated clock: a constant reading (2023-11-14T22:13:20.5Z), so that every now() has
@@ -236,6 +242,34 @@ fn eval(z: &Zones, c: &Call) -> u64 {
                 Err(e) => h.err(&e),
             }
         }
+        Call::OwnedLookup(zi, t) => match z.rules[*zi % z.rules.len()].find_local_time_type(*t) {
+            Ok(l) => h.ltt(l),
+            Err(e) => h.err(&e),
+        },
+        Call::RuleFind(zi, f, n) => {
+            let zr = z.rules[*zi % z.rules.len()].as_ref();
+            if *n >= 4 {
+                match DateTime::find(f.0, f.1, f.2, f.3, f.4, f.5, 0, zr) {
+                    Ok(l) => {
+                        for x in l.into_inner() {
+                            h.found(&x);
+                        }
+                    }
+                    Err(e) => h.err(&e),
+                }
+            } else {
+                let mut buf = [None; 3];
+                match DateTime::find_n(&mut buf[..*n], f.0, f.1, f.2, f.3, f.4, f.5, 0, zr) {
+                    Ok(l) => {
+                        h.i(l.count() as i64);
+                        for x in l.data().iter().flatten() {
+                            h.found(x);
+                        }
+                    }
+                    Err(e) => h.err(&e),
+                }
+            }
+        }
         Call::UtcNow => match UtcDateTime::now() {
             Ok(u) => {
                 for v in [u.year() as i64, u.month() as i64, u.month_day() as i64, u.hour() as i64, u.minute() as i64, u.second() as i64, u.nanoseconds() as i64] {
@@ -262,6 +296,17 @@ fn gen_calls(r: &mut Rng, n: usize, mode: &str) -> Vec<Call> {
             let zi = r.usize(7);
             let t = *r.pick(INSTANTS);
             let f = *r.pick(FIELDS);
+            if mode == "rule" {
+                // everything happens in one year (2030): DST bounds of different rules for the same year
+                const T2030: &[i64] = &[1899507600, 1900112400, 1900717200, 1901322000, 1919466000, 1920070800, 1920675600, 1921280400, 1893456000, 1908000000];
+                const F2030: &[(i32, u8, u8, u8, u8, u8)] = &[(2030, 3, 10, 2, 30, 0), (2030, 3, 31, 2, 30, 0), (2030, 10, 27, 2, 30, 0), (2030, 11, 3, 1, 30, 0), (2030, 4, 7, 2, 30, 0), (2030, 10, 6, 2, 30, 0), (2030, 7, 1, 12, 0, 0)];
+                let zi = r.usize(3);
+                return match r.below(6) {
+                    0 | 1 | 2 => Call::OwnedLookup(zi, *r.pick(T2030) + r.range(-1, 1) * 1800),
+                    3 => Call::RuleFind(zi, *r.pick(F2030), 4),
+                    _ => Call::RuleFind(zi, *r.pick(F2030), r.usize(4)),
+                };
+            }
             if mode == "now" {
                 return match r.below(8) {
                     0 => Call::UtcNow,
@@ -294,7 +339,7 @@ fn main() {
     tz::verif_hooks::set_clock(fixed_clock);
     let mut r = Rng::new(wseed);
     let zones = Arc::new(Zones {
-        shared: if mode == "now" {
+        shared: if mode == "now" || mode == "rule" {
             // the clock-driven workload needs no decoded files (keeps the interpreter's set-up short)
             (0..4).map(|k| Arc::new(TimeZone::fixed(k * 3600 - 7200).unwrap())).collect()
         } else {
@@ -302,6 +347,15 @@ fn main() {
         },
         far_east: TimeZone::fixed(14 * 3600).unwrap(),
         far_west: TimeZone::fixed(-12 * 3600).unwrap(),
+        rules: {
+            let mk = |std_off: i32, dst_off: i32, a: (u8, u8, u8), at: i32, b: (u8, u8, u8), bt: i32| {
+                let std = LocalTimeType::new(std_off, false, Some(b"STD")).unwrap();
+                let dst = LocalTimeType::new(dst_off, true, Some(b"DST")).unwrap();
+                let rule = AlternateTime::new(std, dst, RuleDay::MonthWeekDay(MonthWeekDay::new(a.0, a.1, a.2).unwrap()), at, RuleDay::MonthWeekDay(MonthWeekDay::new(b.0, b.1, b.2).unwrap()), bt).unwrap();
+                TimeZone::new(vec![], vec![std, dst], vec![], Some(TransitionRule::Alternate(rule))).unwrap()
+            };
+            vec![mk(3600, 7200, (3, 5, 0), 7200, (10, 5, 0), 10800), mk(-18000, -14400, (3, 2, 0), 7200, (11, 1, 0), 7200), mk(36000, 39600, (10, 1, 0), 7200, (4, 1, 0), 10800)]
+        },
         rule_zone: {
             let std = LocalTimeType::new(3600, false, Some(b"RST")).unwrap();
             let dst = LocalTimeType::new(7200, true, Some(b"RDT")).unwrap();
